@@ -373,7 +373,12 @@ def an_optimize(model, a, p):
 def an_pfba(model, a, p):
     from cobra.flux_analysis import pfba
 
-    s = pfba(model, fraction_of_optimum=a.get("fraction", 1.0))
+    kw = {}
+    if a.get("objective") and model.reactions.has_id(a["objective"]):
+        # an objective for this call only, as a dictionary or as a ready-made solver objective ("dict or cobra.Model.objective")
+        r = model.reactions.get_by_id(a["objective"])
+        kw["objective"] = {r: 1} if a.get("objective_as") == "dict" else model.problem.Objective(r.flux_expression, direction="max")
+    s = pfba(model, fraction_of_optimum=a.get("fraction", 1.0), **kw)
     return {"unique": _sol(s)}
 
 
@@ -387,7 +392,7 @@ def an_moma(model, a, p):
 def an_room(model, a, p):
     from cobra.flux_analysis import room
 
-    s = room(model, linear=True)
+    s = room(model, linear=a.get("linear", True))
     return {"unique": _sol(s)}
 
 
@@ -1151,6 +1156,11 @@ def _gen_call(rng, W, prop):
         a["raise_error"] = rng.random() < 0.3
     elif kind == "pfba":
         a["fraction"] = rng.choice([1.0, 0.8])
+        if rng.random() < 0.35:
+            a.update(objective=rng.choice(rids), objective_as=rng.choice(["dict", "optlang"]))
+    elif kind == "room":
+        if W.model.solver.interface.__name__ == "optlang.glpk_interface" and rng.random() < 0.4:
+            a["linear"] = False  # the mixed-integer form
     elif kind == "production_envelope":
         ex = [r for r in rids if r.startswith("EX_")]
         if not ex:
